@@ -469,9 +469,16 @@ func (e *Engine) execInstr(st *State, b *ssa.BasicBlock, idx int, in ssa.Instruc
 		st2 := st.clone()
 		st.assume(c.T)
 		st.trace = append(st.trace, fmt.Sprintf("b%d:T", b.Index))
+		probe := e.reachProbesFor(fr.fn)
+		if probe {
+			e.addReach(st, fmt.Sprintf("%s.reach.b%d.then", e.oblPrefix(fr.fn), b.Index))
+		}
 		e.execBlock(st, b.Succs[0], b)
 		st2.assume(fmt.Sprintf("(not %s)", c.T))
 		st2.trace = append(st2.trace, fmt.Sprintf("b%d:F", b.Index))
+		if probe {
+			e.addReach(st2, fmt.Sprintf("%s.reach.b%d.else", e.oblPrefix(fr.fn), b.Index))
+		}
 		e.execBlock(st2, b.Succs[1], b)
 		return false
 	case *ssa.Return:
